@@ -23,7 +23,7 @@ RULE = ('cases: seeded populations of 0-12 agents (after an add/remove history, 
         'query. Non-trivial query: the filter keeps some but not all agents AND involves a tag filter or >=2 types; distinct by '
         '(population signature, query).')
 ASSUMPTIONS = ['"every member is reachable" is checked as: each of the k members is drawn within 60*k draws (a uniform pick misses one with probability < 1e-25)']
-FLOORS = {'quick': {'same_question_asked_of_an_unrelated_model_first': 1758, 'queries': 6000, 'tag_zero_queries': 800, 'tag_queries': 3000, 'template_queries': 4000, 'empty_filters': 1500,
+FLOORS = {'quick': {'joins_failing_half_way': 88, 'same_question_asked_of_an_unrelated_model_first': 1758, 'queries': 6000, 'tag_zero_queries': 800, 'tag_queries': 3000, 'template_queries': 4000, 'empty_filters': 1500,
                     'random_picks': 100000, 'reachability_checks': 700, 'shuffles': 8000, 'shuffles_reordered': 2000, 'size_preserving_swaps': 1500, 'big_populations': 6, 'ids_taken_over_by_new_objects': 100, 'nested_environment_agents': 300, 'removals_after_resident_attach': 60, 'secondary_environment_populations': 100, 'completed_model_populations': 80,
                     'reach:Core.Environment.get_agents': 100000, 'reach:Core.Environment.get_random_agent': 100000,
                     'reach:Core.Environment.shuffle': 8000},
@@ -96,6 +96,25 @@ def case_population(ctx, case):
             if rng.random() < 0.5:
                 env.add_agent(a)
                 order.append(a)
+    if rng.random() < 0.3:
+        # a join that fails half-way in ANOTHER small model (a component of the newcomer had been registered by hand): listing and random
+        # selection still agree - every agent the listing shows can be drawn, nothing else can
+        from vlib import faults
+        m2 = core.Model(seed=rng.randint(0, 999))
+        for j in range(2):
+            m2.environment.add_agent(core.Agent(f'r{j}', m2))
+        m2.environment.get_random_agent()
+        nb = core.Agent('newcomer', m2)
+        for T in K[:3]:
+            nb.add_component(T(nb, m2))
+        m2.systems.register_component(nb[K[rng.randint(1, 2)]])
+        _, err = faults.attempt(m2.environment.add_agent, nb)
+        listed = m2.environment.get_agents()
+        drawn = {id(m2.environment.get_random_agent()) for _ in range(60 * max(1, len(listed)))}
+        ctx.count('joins_failing_half_way')
+        if drawn != {id(a) for a in listed}:
+            raise CaseViolation('after a join that failed half-way the agents that get_random_agent() can return are not those that get_agents() lists',
+                                listed=[a.id for a in listed], never_drawn=[a.id for a in listed if id(a) not in drawn], error=repr(err))
     poisoned = []
     if len(order) >= 2 and rng.random() < 0.25:
         # a removal that FAILS must leave membership and joining order alone.  (Attaching a component to a resident agent and then
